@@ -855,6 +855,146 @@ def parse_sorting(itoks, ltoks):
     return calls, cmp_text, sorted(callers)
 
 
+# ----------------------------------------------------------------------------- links
+def parse_link_writer(ltoks):
+    """cg_link_write: the labels its white list accepts as the current position, every function it calls (in order of first
+    occurrence) and every lvalue it changes -- it creates the link node in the file and touches no array of the mirror"""
+    v = vals(ltoks)
+    fns = functions(ltoks)
+    if "cg_link_write" not in fns:
+        raise Fail("cg_link_write not found")
+    b0, b1 = fns["cg_link_write"]
+    parents, calls, assigns = [], [], []
+    kw = {"if", "while", "for", "switch", "return", "sizeof"}
+    for i in range(b0, b1):
+        if v[i] == "strcmp" and v[i + 1] == "(":
+            args, _ = split_args(ltoks, i + 1)
+            a0 = " ".join(vals(args[0])) if args else ""
+            if a0 == "posit -> label" and len(args) == 2 and len(args[1]) == 1 and args[1][0][1].startswith('"'):
+                parents.append(args[1][0][1].strip('"'))
+            else:
+                parents.append("UNPARSED " + " ".join(vals(args[1] if len(args) > 1 else []))[:40])
+        if ltoks[i][0] == "id" and v[i + 1] == "(" and v[i] not in kw and v[i] not in calls:
+            calls.append(v[i])
+        if v[i] in ("++", "--"):
+            j = i - 1
+            if v[j] == ")":
+                k = j
+                d = 0
+                while True:
+                    if v[k] == ")":
+                        d += 1
+                    elif v[k] == "(":
+                        d -= 1
+                        if d == 0:
+                            break
+                    k -= 1
+                assigns.append(" ".join(v[k:i + 1]))
+            else:
+                assigns.append(" ".join(v[max(b0, i - 3):i + 1]))
+        if v[i] in ("=", "+=", "-=", "|=", "&=") :
+            j = i - 1
+            while j > b0 and v[j] not in (";", "{", "}", "(", ","):
+                j -= 1
+            assigns.append(" ".join(v[j + 1:i + 1]))
+    return parents, calls, assigns
+
+
+def parse_bexp(tv):
+    """a C condition over plain identifiers: || && ! ( ) x == 0, x != 0, x  -> Coq term of type Mirror.bexp"""
+    pos = [0]
+
+    def peek():
+        return tv[pos[0]] if pos[0] < len(tv) else None
+
+    def eat(x=None):
+        t = peek()
+        if t is None or (x is not None and t != x):
+            raise Fail("condition: expected %s at %s" % (x, " ".join(tv[pos[0]:pos[0] + 4])))
+        pos[0] += 1
+        return t
+
+    def p_or():
+        a = p_and()
+        while peek() == "||":
+            eat(); a = "(BOr %s %s)" % (a, p_and())
+        return a
+
+    def p_and():
+        a = p_not()
+        while peek() == "&&":
+            eat(); a = "(BAnd %s %s)" % (a, p_not())
+        return a
+
+    def p_not():
+        if peek() == "!":
+            eat(); return "(BNot %s)" % p_not()
+        return p_atom()
+
+    def p_atom():
+        if peek() == "(":
+            eat(); a = p_or(); eat(")"); return a
+        x = eat()
+        if not re.match(r"[A-Za-z_]\w*$", x):
+            raise Fail("condition: not an identifier: " + x)
+        if peek() in ("==", "!="):
+            o = eat(); z = eat()
+            if z != "0":
+                raise Fail("condition: comparison with " + z)
+            return "(%s %s)" % ("BEq0" if o == "==" else "BNe0", cs(x))
+        return "(BNe0 %s)" % cs(x)
+    a = p_or()
+    if pos[0] != len(tv):
+        raise Fail("condition: trailing " + " ".join(tv[pos[0]:pos[0] + 4]))
+    return a
+
+
+def parse_copy_rule(repo):
+    """src/cgns_io.c: recurse_nodes (the tree copy behind cgio_compress_file and cgio_copy_file) -- the condition under which
+    a child that is a link is created again AS A LINK, what the recursion passes on as follow_links, and the follow_links
+    argument of every caller"""
+    toks = load(repo, "cgns_io.c")
+    v = vals(toks)
+    fns = functions(toks)
+    if "recurse_nodes" not in fns:
+        raise Fail("recurse_nodes not found")
+    b0, b1 = fns["recurse_nodes"]
+    guards = []
+    for i in range(b0, b1):
+        if v[i] == "if" and v[i + 1] == "(":
+            c1 = match_close(toks, i + 1)
+            if v[c1 + 1] == "{":
+                e = match_close(toks, c1 + 1)
+                if "cgio_create_link" in v[c1 + 1:e]:
+                    has_else = v[e + 1] == "else"
+                    other = []
+                    if has_else and v[e + 2] == "{":
+                        e2 = match_close(toks, e + 2)
+                        other = v[e + 2:e2]
+                    guards.append((v[i + 2:c1], "cgio_create_node" in other and "recurse_nodes" in other))
+    if len(guards) != 1:
+        raise Fail("recurse_nodes: %d guarded cgio_create_link blocks" % len(guards))
+    guard = parse_bexp(guards[0][0])
+    callers = []
+    for fname, (a, b) in sorted(fns.items(), key=lambda kv: kv[1][0]):
+        for i in range(a, b):
+            if v[i] == "recurse_nodes" and v[i + 1] == "(":
+                args, _ = split_args(toks, i + 1)
+                callers.append("%s: %s" % (fname, " ".join(vals(args[4])) if len(args) == 6 else "?"))
+    return guard, guards[0][1], callers
+
+
+def parse_general_write_cache(itoks):
+    """cgi_array_general_write: does the branch that rewrites an existing DataArray_t node in place mention array->data (the
+    copy cgi_read_array loads for most parents) at all?"""
+    v = vals(itoks)
+    fns = functions(itoks)
+    if "cgi_array_general_write" not in fns:
+        raise Fail("cgi_array_general_write not found")
+    b0, b1 = fns["cgi_array_general_write"]
+    return any(v[i:i + 3] == ["array", "->", "data"] for i in range(b0, b1 - 3))
+
+
 # ----------------------------------------------------------------------------- output
 def guarded(f, fallback):
     """a parser that meets text it cannot even tokenise / bracket-match must not abort the run: its table becomes one
@@ -915,6 +1055,18 @@ def translate(repo):
     out.append("Definition sort_calls : list string := %s." % clist([cs(c) for c in calls]))
     out.append("Definition sort_comparator : string := %s." % cs(cmp_text))
     out.append("Definition sort_names_callers : list string := %s." % clist([cs(c) for c in callers]))
+    out.append("")
+    lp, lc, la = guarded(lambda: parse_link_writer(ltoks), lambda w: (["UNPARSED " + w], [], []))
+    out.append("Definition link_parents : list string := %s." % clist([cs(c) for c in lp], ";\n  "))
+    out.append("Definition link_calls : list string := %s." % clist([cs(c) for c in lc]))
+    out.append("Definition link_assigns : list string := %s." % clist([cs(c) for c in la]))
+    out.append("")
+    g, els, cl = guarded(lambda: parse_copy_rule(repo), lambda w: ("(BUnparsed %s)" % cs(w), False, []))
+    out.append("Definition copy_link_guard : bexp := %s." % g)
+    out.append("Definition copy_else_recurses : bool := %s." % cbool(els))
+    out.append("Definition copy_callers : list string := %s." % clist([cs(c) for c in cl]))
+    out.append("")
+    out.append("Definition general_write_mentions_cache : bool := %s." % cbool(guarded(lambda: parse_general_write_cache(itoks), lambda w: False)))
     out.append("")
     return "\n".join(out)
 
